@@ -270,6 +270,13 @@ pub fn run(path: &str, out: &mut dyn Write) {
                     }
                 }
             }
+            Some("tok16") => {
+                if t.len() >= 4 {
+                    if let (Ok(rows), Ok(cheap)) = (t[2].parse::<usize>(), t[3].parse::<usize>()) {
+                        writeln!(out, "{input} IMPL {} ## ROWS={rows} CHEAP={cheap}", crate::tok16_obs(rows.min(200_000), cheap)).unwrap();
+                    }
+                }
+            }
             Some("conn") => {
                 // conn <id> KIND <k> <right> <left> <cost>
                 if t.len() >= 7 && t[2] == "KIND" {
